@@ -615,6 +615,9 @@ class Explorer:
         results = []
         while pending:
             ts, pst = pending.pop()
+            if getattr(ts, "ended_in_branch", False):
+                results.append((ts, pst, "end"))
+                continue
             try:
                 while True:
                     forks = self.step(ts, pst, th)
@@ -656,7 +659,10 @@ class Explorer:
         forks = []
         for c, fn in ((cond, on_true), (z3.Not(cond), on_false)):
             ts2, pst2 = clone_tstate(ts), pst.clone()
-            fn(ts2, pst2)
+            try:
+                fn(ts2, pst2)
+            except PathEnd:
+                ts2.ended_in_branch = True  # e.g. an exception raised by this alternative is not caught anywhere
             forks.append((c, ts2, pst2))
         return forks
 
@@ -855,7 +861,7 @@ class Explorer:
             obj = obj.payload
         if isinstance(obj, SOpt):
             raise VMError("attribute %s of an optional value" % name)
-        if is_symint(obj) and name in ("tell", "seek", "readline", "close") and w.storage_files is not None:
+        if is_symint(obj) and name in ("tell", "seek", "readline", "close", "flush") and w.storage_files is not None:
             return BoundMethod(_HANDLE_FUNCS[name], obj)
         if is_symint(obj) and name in ("rstrip", "decode"):
             return BoundMethod(_LINE_IDENT, obj)  # a line is represented by its id: decoding / stripping the newline keep the id
@@ -1249,8 +1255,9 @@ class Explorer:
             r = slot(L.cap - 1)
             for j in range(L.cap - 2, -1, -1):
                 r = ite(k == I(j), slot(j), r)
-            pst.set_flag("indexerror-manager-list", z3.Or(k < I(0), k >= ln))
-            st.append(r)
+            pst.set_flag("negative-index-into-manager-list", k < I(0))
+            return self.branch(ts, pst, k >= ln, lambda t, p: self.do_raise(t, p, th, IndexError("list index out of range")),
+                               lambda t, p: t.frames[-1].stack.append(r))
         elif name == "setitem":
             k = as_bv(args[0])
             val = coerce(args[1], L.elem)
@@ -1286,16 +1293,23 @@ class Explorer:
         return None
 
     def storage_file_op(self, ts, pst, th, name, h, args, kwargs):
-        """prims.SimStorageFiles: file number k (symbolic) selects the file; lines are integer tags; offsets are line numbers."""
+        """prims.SimStorageFiles: file number k (symbolic) selects the file; lines are integer tags; offsets are line numbers.
+        A file has n lines that other processes can see and `pend` lines that are still in the (single) writer's buffer:
+        print(..., flush=True) = one step "D.print" (append + flush); print(...) without flush = step "D.write" (the line is
+        buffered: tell() counts it, readers do not see it); flush()/close() make the buffered lines visible."""
         w = self.w
         D = w.storage_files
         st = ts.frames[-1].stack
         me = w.thread_order.index(th.name)
+        if name == "print" and not kwargs.get("flush"):
+            name = "write"
         self.visible(ts, pst, "%s.%s" % (D.name, name), prim=D)
         k = as_bv(h)
         NF, ML = D.nfiles, D.maxlines
         for f in range(NF):
             w.declare("%s.n.%d:i" % (D.name, f), "i", 0)
+            w.declare("%s.pend.%d:i" % (D.name, f), "i", 0)
+            w.declare("%s.writer.%d:i" % (D.name, f), "i", -1)
             w.declare("%s.rp.%d.%d:i" % (D.name, me, f), "i", 0)
             for j in range(ML):
                 w.declare("%s.c.%d.%d:i" % (D.name, f, j), "i", 0)
@@ -1303,6 +1317,9 @@ class Explorer:
 
         def nvar(f):
             return "%s.n.%d:i" % (D.name, f)
+
+        def pvar(f):
+            return "%s.pend.%d:i" % (D.name, f)
 
         def rvar(f):
             return "%s.rp.%d.%d:i" % (D.name, me, f)
@@ -1313,30 +1330,47 @@ class Explorer:
                 r = z3.If(k == I(f), fn(f), r)
             return r
 
+        def do_flush(only_own=False):
+            for f in range(NF):
+                n, pe = pst.read(nvar(f), "i"), pst.read(pvar(f), "i")
+                hit = k == I(f)
+                if only_own:  # close() of a read handle must not flush another process' write buffer
+                    hit = z3.And(hit, pst.read("%s.writer.%d:i" % (D.name, f), "i") == I(me))
+                pst.write(nvar(f), "i", z3.If(hit, n + pe, n))
+                pst.write(pvar(f), "i", z3.If(hit, I(0), pe))
+
         if name == "open":
             mode = args[0] if args else kwargs.get("mode", "r")
             if mode == "w":
                 for f in range(NF):
                     pst.write(nvar(f), "i", z3.If(k == I(f), I(0), pst.read(nvar(f), "i")))
+                    pst.write(pvar(f), "i", z3.If(k == I(f), I(0), pst.read(pvar(f), "i")))
             elif mode == "r":
                 for f in range(NF):
                     pst.write(rvar(f), "i", z3.If(k == I(f), I(0), pst.read(rvar(f), "i")))
             elif mode != "a":
                 raise VMError("open mode %r not modelled" % (mode,))
+            if mode in ("w", "a"):
+                for f in range(NF):
+                    wv = "%s.writer.%d:i" % (D.name, f)
+                    pst.write(wv, "i", z3.If(k == I(f), I(me), pst.read(wv, "i")))
             st.append(h)
         elif name == "tell":
-            st.append(sel(lambda f: pst.read(nvar(f), "i")))
-        elif name == "print":
-            if not kwargs.get("flush"):
-                raise VMError("print(..., file=f) without flush=True: buffered writes are not modelled")
+            st.append(sel(lambda f: pst.read(nvar(f), "i") + pst.read(pvar(f), "i")))
+        elif name in ("print", "write"):
             data = as_bv(args[0])
             for f in range(NF):
-                n = pst.read(nvar(f), "i")
+                n, pe = pst.read(nvar(f), "i"), pst.read(pvar(f), "i")
                 for j in range(ML):
                     cv = "%s.c.%d.%d:i" % (D.name, f, j)
-                    pst.write(cv, "i", z3.If(z3.And(k == I(f), n == I(j)), data, pst.read(cv, "i")))
-                pst.write(nvar(f), "i", z3.If(k == I(f), n + I(1), n))
-            pst.set_flag("bound_exceeded", sel(lambda f: pst.read(nvar(f), "i")) >= I(ML))
+                    pst.write(cv, "i", z3.If(z3.And(k == I(f), n + pe == I(j)), data, pst.read(cv, "i")))
+                pst.write(pvar(f), "i", z3.If(k == I(f), pe + I(1), pe))
+            pst.set_flag("bound_exceeded", sel(lambda f: pst.read(nvar(f), "i") + pst.read(pvar(f), "i")) > I(ML))
+            if name == "print":
+                do_flush()
+            st.append(None)
+        elif name == "flush":
+            do_flush()
             st.append(None)
         elif name == "seek":
             off = as_bv(args[0])
@@ -1359,6 +1393,7 @@ class Explorer:
                 pst.write(rvar(f), "i", z3.If(z3.And(k == I(f), pos < n), cur + I(1), cur))
             st.append(val)
         elif name == "close":
+            do_flush(only_own=True)  # closing a write handle flushes its buffer
             st.append(None)
         else:
             raise VMError("storage file .%s not modelled" % name)
@@ -1948,6 +1983,13 @@ class Explorer:
     def op_UNPACK_SEQUENCE(self, ts, pst, th, f, ins, st):
         v = st.pop()
         n = ins.arg
+        if isinstance(v, SOpt) and self.w.storage_files is not None and isinstance(v.payload, tuple) and len(v.payload) == n:
+            pay = v.payload
+
+            def unpack(t, p):
+                for x in reversed(pay):
+                    t.frames[-1].stack.append(x)
+            return self.branch(ts, pst, v.is_none, lambda t, p: self.do_raise(t, p, th, TypeError("cannot unpack non-iterable NoneType object")), unpack)
         if isinstance(v, SOpt):
             # the code has established `is not None` on this path (or this is a bug that raises TypeError)
             pst.cond.append(z3.Not(v.is_none))
@@ -2599,7 +2641,7 @@ class _HandleMethod:
         self.name = name
 
 
-_HANDLE_FUNCS = {n: _HandleMethod(n) for n in ("tell", "seek", "readline", "close")}
+_HANDLE_FUNCS = {n: _HandleMethod(n) for n in ("tell", "seek", "readline", "close", "flush")}
 _LINE_IDENT = _HandleMethod("identity")
 
 
